@@ -208,7 +208,7 @@ class Example:
 
                 # the generated code can use HasRepr(...): import it like the pytest plugin does
                 for test_file in recorder.files():
-                    if used_hasrepr(ast.parse(test_file.new_code())):
+                    if used_hasrepr(ast.parse(test_file.new_code().lstrip("\ufeff"))):
                         ensure_import(
                             test_file.filename,
                             {"inline_snapshot": ["HasRepr"]},
